@@ -209,12 +209,70 @@ func c06Run(args []string) int {
 			mu.Unlock()
 		}
 	}
+	// the pipeline hands ONE loaded set of schemas to every language in turn (each chain starts with a deep copy): the same
+	// is done here for a third of the cases and for every case with an allOf: a chain that writes through a shallow copy
+	// leaves references in the shared schemas to objects that only exist in its own private copy, and the NEXT language
+	// starts from those. Records are labelled "shared:<lang>": no normal-form clause applies to them, reference
+	// resolution (C05) does.
+	processShared := func(jb job, c J) {
+		schemas, err := unprojSchemas(c["schemas"])
+		if err != nil {
+			return
+		}
+		for _, lang := range langOrder {
+			rec := J{"case": jb.n, "lang": "shared:" + lang, "shape": c["shape"], "leaf": c["leaf"], "pos": c["pos"], "err": false, "panic": "", "post": []any{}, "builders": []any{}}
+			func() {
+				defer func() {
+					if r := recover(); r != nil {
+						rec["panic"] = fmt.Sprint(r)
+						rec["err"] = true
+					}
+				}()
+				pipeline, perr := verifapi.NewPipeline()
+				if perr != nil {
+					panic(perr)
+				}
+				pipeline.Output.Builders = true
+				ctx, cerr := pipeline.ContextForLanguage(langs[lang](), schemas)
+				if cerr != nil {
+					rec["err"] = true
+					rec["error"] = cerr.Error()
+					return
+				}
+				post := normalize(projSchemas(ctx.Schemas)).([]any)
+				addEnumFacts(post)
+				rec["post"] = post
+				rec["builders"] = projBuilderRefs(ctx.Builders)
+			}()
+			raw, _ := json.Marshal(rec)
+			mu.Lock()
+			w.Write(raw)
+			w.WriteByte('\n')
+			stats["records"]++
+			stats["shared_records"]++
+			mu.Unlock()
+		}
+	}
+	hasAllOf := func(c J) bool {
+		for _, x := range jlist(c["shape"]) {
+			if jstr(x) == "allof" {
+				return true
+			}
+		}
+		return false
+	}
 	for i := 0; i < *par; i++ {
 		wg.Add(1)
 		go func() {
 			defer wg.Done()
 			for jb := range jobs {
 				process(jb)
+				body := bytes.TrimSuffix(bytes.TrimSpace(jb.line[len(prefix):]), []byte(">>"))
+				var js string
+				var c J
+				if json.Unmarshal(body, &js) == nil && json.Unmarshal([]byte(js), &c) == nil && (jb.n%3 == 0 || hasAllOf(c)) {
+					processShared(jb, c)
+				}
 			}
 		}()
 	}
